@@ -16,6 +16,8 @@
 (*   typeddict    Required key  req  (a NotRequired key may   FALSE (TypedDict has no   *)
 (*                              be missing from the object)   defaults)                 *)
 (*                                                                                     *)
+(* A logical field may be OUTPUT-ONLY (dir = "out"): defined by the class, not taken by *)
+(* the constructor.                                                                    *)
 (* Documented per-kind limitations (docs/reference/integrations.rst, Python itself):    *)
 (*   namedtuple   a field without default cannot follow one with default; no leading   *)
 (*                underscore                                                            *)
@@ -29,18 +31,25 @@ EXTENDS Naturals, Sequences, FiniteSets
 Kinds == {"dataclass", "namedtuple", "typeddict", "attrs", "pydantic", "sqlalchemy"}
 TotalKinds == Kinds \ {"typeddict"}
 
-FieldOf(kind, f) == [id |-> f.id, req |-> f.req, ty |-> f.ty,
-                     oreq |-> (kind # "typeddict") \/ f.req,
-                     hasdfl |-> ~f.req /\ kind # "typeddict",
-                     ctordfl |-> kind # "sqlalchemy"]
+\* an output-only logical field (dir = "out") is never required on input and declares no default
+FieldOf(kind, f) == [id |-> f.id, req |-> f.req /\ f.dir = "io", ty |-> f.ty,
+                     oreq |-> (kind # "typeddict") \/ f.req \/ f.dir = "out",
+                     hasdfl |-> ~f.req /\ kind # "typeddict" /\ f.dir = "io",
+                     ctordfl |-> kind # "sqlalchemy",
+                     dir |-> f.dir]
 ShapeOf(kind, logical) == [i \in 1..Len(logical) |-> FieldOf(kind, logical[i])]
 
+\* output-only fields exist for dataclass / attrs (field(init=False)) and pydantic (computed fields, which pydantic itself
+\* lists after the ordinary fields)
+OutOnly(logical) == {i \in 1..Len(logical) : logical[i].dir = "out"}
 Supports(kind, logical, aslist) ==
-  CASE kind = "namedtuple" -> /\ \A i, j \in 1..Len(logical) : (i < j /\ ~logical[i].req) => ~logical[j].req
-                              /\ \A i \in 1..Len(logical) : logical[i].id.lead = 0
-    [] kind = "pydantic"   -> \A i \in 1..Len(logical) : logical[i].id.lead = 0
-    [] kind = "sqlalchemy" -> ~aslist
-    [] OTHER -> TRUE
+  /\ (OutOnly(logical) # {} => kind \in {"dataclass", "attrs", "pydantic"})
+  /\ (kind = "pydantic" => \A i \in OutOnly(logical) : \A j \in 1..Len(logical) : j > i => j \in OutOnly(logical))
+  /\ (CASE kind = "namedtuple" -> /\ \A i, j \in 1..Len(logical) : (i < j /\ ~logical[i].req) => ~logical[j].req
+                                  /\ \A i \in 1..Len(logical) : logical[i].id.lead = 0
+        [] kind = "pydantic"   -> \A i \in 1..Len(logical) : logical[i].id.lead = 0
+        [] kind = "sqlalchemy" -> ~aslist
+        [] OTHER -> TRUE)
 
 \* a converter between two kinds of one logical model copies every field (all fields present)
 ConvertObj(srcKind, dstKind, obj) == obj
